@@ -282,6 +282,8 @@ class SNum(Sym):
             return 1.0 / (self ** (-e))
         if isinstance(e, float) and e == 0.5:
             return self.sqrt()
+        if isinstance(e, SNum) and e.kind == 'int':
+            return ctx().uf_apply('powi', [self, e.to_real()])
         return ctx().uf_apply('pow', [self, lift(e)])
 
     def __rpow__(self, base):
